@@ -183,8 +183,8 @@ pub mod fs {
     pub open spec fn mkdirs_post(pre: Fs, post: Fs, p: PathV) -> bool {
         &&& post.files == pre.files
         &&& post.links == pre.links
-        &&& forall|d: PathV| pre.dirs.contains(d) ==> post.dirs.contains(d)
-        &&& forall|d: PathV| post.dirs.contains(d) && !pre.dirs.contains(d) ==> under(p, d)
+        &&& forall|d: PathV| #![trigger pre.dirs.contains(d)] pre.dirs.contains(d) ==> post.dirs.contains(d)
+        &&& forall|d: PathV| #![trigger post.dirs.contains(d)] post.dirs.contains(d) && !pre.dirs.contains(d) ==> under(p, d)
     }
     #[verifier::external_body]
     pub fn create_dir_all<A: PathArg>(p: A, Tracked(w): Tracked<&mut World>) -> (r: io::Result<()>)
